@@ -163,6 +163,11 @@ class Roles:
                     return b
                 if a == "K1":
                     return "K0" if b == "K1" else ("NOT(%s)" % b if not b.startswith("NOT(") else b[4:-1])
+            if o[1] in ("Add", "Mul", "BitAnd", "BitOr"):
+                # commutative: constants last, otherwise a fixed order
+                ka, kb = a.startswith("K") and a[1:].lstrip("-").isdigit(), b.startswith("K") and b[1:].lstrip("-").isdigit()
+                if (ka and not kb) or (ka == kb and b < a):
+                    a, b = b, a
             return "(%s %s %s)" % (a, o[1], b)
         if k == "un":
             return "%s(%s)" % (o[1], self.of_origin(o[2]))
